@@ -78,49 +78,47 @@ func Format(w io.Writer, blocks []*commonmark.RootBlock) error {
 			return n.Child(i)
 		},
 	})
+	if fw.startedLine {
+		// End the last line.
+		fw.write("\n")
+	}
 	return fw.err
 }
 
 func preBlock(fw *formatWriter, source []byte, cursor *commonmark.Cursor) (childrenIndent string, descend bool) {
+	// Blocks do not write the line breaks that separate them from what comes before:
+	// each block ends by requesting either a new line or a blank line (see endBlock),
+	// and the request is carried out when the next block starts writing.
 	curr := cursor.Node().Block()
 	switch k := curr.Kind(); k {
 	case commonmark.ParagraphKind:
-		if !isFirstParagraph(cursor) {
-			fw.s("\n")
-		}
 		return "", true
 	case commonmark.ThematicBreakKind:
-		if fw.hasWritten {
-			fw.s("\n---\n\n")
-		} else {
+		switch {
+		case cursor.Parent().Block().Kind() == commonmark.ListItemKind:
+			// "- ---" and "* ***" would themselves be thematic breaks,
+			// and "---" directly below a paragraph in a tight list item
+			// would be a setext heading underline.
+			fw.s("___")
+		case !fw.hasWritten:
 			// Disambiguate from front matter.
-			fw.s("***\n\n")
+			fw.s("***")
+		default:
+			fw.s("---")
 		}
 		return "", true
 	case commonmark.ListKind:
-		if fw.hasWritten && curr.IsTightList() {
-			// Individual list items won't contain a blank line,
-			// so add them beforehand.
-			fw.s("\n")
-		}
 		return "", true
 	case commonmark.ListItemKind:
-		if cursor.Index() > 0 && !curr.IsTightList() {
-			fw.s("\n")
-		}
-		start := 0
-		if marker := curr.Child(start).Block(); marker.Kind() == commonmark.ListMarkerKind {
-			start++
+		if marker := curr.Child(0).Block(); marker.Kind() == commonmark.ListMarkerKind {
 			markerBytes := spanSlice(source, marker.Span())
 			fw.b(markerBytes)
 			fw.s(" ")
 			childrenIndent = strings.Repeat(" ", len(markerBytes)+1)
+			fw.atContentStart = true
 		}
 		return childrenIndent, true
 	case commonmark.LinkReferenceDefinitionKind:
-		if fw.hasWritten {
-			fw.s("\n")
-		}
 		fw.s("[")
 		fw.s(curr.Child(0).Inline().LinkReference())
 		fw.s("]: ")
@@ -130,27 +128,19 @@ func preBlock(fw *formatWriter, source []byte, cursor *commonmark.Cursor) (child
 			fw.s(curr.Child(2).Inline().Text(source))
 			fw.s(`"`)
 		}
-		fw.s("\n")
+		endBlock(fw, cursor)
 		return "", false
 	case commonmark.BlockQuoteKind:
-		if fw.hasWritten {
-			fw.s("\n")
-		}
 		fw.s("> ")
+		fw.atContentStart = true
 		return "> ", true
 	case commonmark.IndentedCodeBlockKind:
-		if fw.hasWritten {
-			fw.s("\n")
-		}
 		for i, n := 0, codeFenceLength(source, curr); i < n; i++ {
 			fw.s("`")
 		}
 		fw.s("\n")
 		return "", true
 	case commonmark.FencedCodeBlockKind:
-		if fw.hasWritten {
-			fw.s("\n")
-		}
 		c := [1]byte{codeFenceChar(source, curr)}
 		for i, n := 0, codeFenceLength(source, curr); i < n; i++ {
 			fw.b(c[:])
@@ -161,63 +151,62 @@ func preBlock(fw *formatWriter, source []byte, cursor *commonmark.Cursor) (child
 		fw.s("\n")
 		return "", true
 	case commonmark.ATXHeadingKind:
-		if fw.hasWritten {
-			fw.s("\n")
-		}
 		for i, n := 0, curr.HeadingLevel(); i < n; i++ {
 			fw.s("#")
 		}
 		fw.s(" ")
 		return "", true
 	case commonmark.SetextHeadingKind, commonmark.HTMLBlockKind:
-		if fw.hasWritten {
-			fw.s("\n")
-		}
 		return "", true
 	default:
 		return "", false
 	}
 }
 
-func isFirstParagraph(cursor *commonmark.Cursor) bool {
-	if cursor.Node().Block().Kind() != commonmark.ParagraphKind {
-		return false
+// endBlock requests the separation between the block at the cursor
+// and whatever follows it:
+// a new line inside a tight list, a blank line everywhere else.
+func endBlock(fw *formatWriter, cursor *commonmark.Cursor) {
+	// A container that turned out to be empty has no content to continue.
+	fw.atContentStart = false
+
+	b := cursor.Node().Block()
+	tight := false
+	switch {
+	case b.Kind() == commonmark.ListItemKind:
+		tight = b.IsTightList()
+	case cursor.Parent().Block().Kind() == commonmark.ListItemKind:
+		tight = cursor.Parent().Block().IsTightList()
 	}
-	if cursor.Index() <= 0 {
-		return true
+	// This overrides what the last block inside of a container asked for.
+	if tight {
+		fw.pendingBreaks = 1
+	} else {
+		fw.pendingBreaks = 2
 	}
-	parent := cursor.Parent().Block()
-	if cursor.Index() == 1 && parent.Kind() == commonmark.ListItemKind && parent.Child(0).Block().Kind() == commonmark.ListMarkerKind {
-		return true
-	}
-	return false
 }
 
 func postBlock(fw *formatWriter, source []byte, cursor *commonmark.Cursor) {
 	b := cursor.Node().Block()
 	switch b.Kind() {
-	case commonmark.ParagraphKind:
-		if !cursor.ParentBlock().IsTightList() {
-			fw.s("\n")
-		}
-	case commonmark.ListItemKind:
-		fw.s("\n")
 	case commonmark.IndentedCodeBlockKind, commonmark.FencedCodeBlockKind:
+		fw.newline()
 		c := [1]byte{codeFenceChar(source, b)}
 		for i, n := 0, codeFenceLength(source, b); i < n; i++ {
 			fw.b(c[:])
 		}
-		fw.s("\n")
-	case commonmark.ATXHeadingKind:
-		fw.s("\n")
 	case commonmark.SetextHeadingKind:
 		// TODO(someday): Extend to the length of the source.
+		fw.newline()
 		if b.HeadingLevel() == 1 {
-			fw.s("\n=====\n")
+			fw.s("=====")
 		} else {
-			fw.s("\n-----\n")
+			fw.s("-----")
 		}
+	case commonmark.ListMarkerKind:
+		return
 	}
+	endBlock(fw, cursor)
 }
 
 func visitInline(fw *formatWriter, source []byte, cursor *commonmark.Cursor) bool {
@@ -376,6 +365,14 @@ type formatWriter struct {
 	indents     []string
 	startedLine bool
 
+	// pendingBreaks is the separation requested before the next text:
+	// 1 means that the text starts on a new line,
+	// 2 that a blank line precedes it.
+	pendingBreaks int
+	// atContentStart is true right after the marker of a container has been written:
+	// the container's first block continues on the same line.
+	atContentStart bool
+
 	hasWritten bool
 	err        error
 }
@@ -401,7 +398,40 @@ func (fw *formatWriter) b(p []byte) {
 	fw.s(string(p))
 }
 
+// newline requests that the next text starts on a new line.
+func (fw *formatWriter) newline() {
+	if fw.pendingBreaks < 1 {
+		fw.pendingBreaks = 1
+	}
+}
+
+// blankLine requests that the next text is preceded by a blank line.
+func (fw *formatWriter) blankLine() {
+	fw.pendingBreaks = 2
+}
+
+// s writes a string, preceded by any line breaks that were requested.
 func (fw *formatWriter) s(s string) {
+	if len(s) == 0 {
+		return
+	}
+	n := fw.pendingBreaks
+	fw.pendingBreaks = 0
+	switch {
+	case fw.atContentStart:
+		fw.atContentStart = false
+	case fw.hasWritten && n > 0:
+		if fw.startedLine {
+			fw.write("\n")
+		}
+		if n > 1 {
+			fw.write("\n")
+		}
+	}
+	fw.write(s)
+}
+
+func (fw *formatWriter) write(s string) {
 	if fw.err != nil {
 		return
 	}
